@@ -368,8 +368,8 @@ def _r5(ctx, rep, se, cfg):
         rep.check(edge is not None, "R5", key(se, n.exprs[0], "refuses when the value exceeds the limit (strict >)"), se,
                   n.exprs[0], "canonical form: %s %s %s" % o)
         tgt = [m for l, m in n.succ if l == (edge or "T")][0]
-        tn = cfg.nodes[tgt]
-        rep.check(any(call_name(c) == "_on_error" for c in calls_in(tn)), "R5",
+        refusing = {m.id for m in cfg.live_nodes() if any(call_name(c) == "_on_error" for c in calls_in(m))}
+        rep.check(tgt in refusing or cfg.all_paths_pass(tgt, cfg.exit, refusing), "R5",
                   key(se, n.exprs[0], "the true edge refuses the order"), se, n.exprs[0])
         # reached for PLACE and REPLACE when the limit is set
         for pt in ("PLACE", "REPLACE"):
